@@ -8,6 +8,8 @@
 (*   AcceptStart{t,h}   AcceptEnd{t,h,res in item|closed|err,item}         *)
 (*   Connect{item,k,ok} Stuck{t,op}  Rebind{k,ok}  ItemFate{item,fate,by}  *)
 (*   Leak{n}  End{clean}                                                   *)
+(*   ClientSaw{item,what in closed|reset}  client side of a connection     *)
+(*                that no call has returned, looked at before the cleanup  *)
 (* Line order is a real-time order: every event is written under one lock, *)
 (* Start events before the call, End events after it returned.             *)
 (* One deterministic pass; the first line violating each property clause   *)
@@ -33,7 +35,10 @@ Kinds == << "deadlock",                  \* C13: a listen/close call did not ret
             "item-lost",                 \* C12: a connection/datagram was never delivered although, from its arrival on, some
                                          \*      handle of its address was open all the time and a call was still waiting
             "call-panicked",             \* C12/C13: a listen/close/accept call panicked instead of returning
-            "datagram-truncated" >>      \* C12: a datagram was handed out shorter than it was sent (receive buffer of the caller: 65600)
+            "datagram-truncated",        \* C12: a datagram was handed out shorter than it was sent (receive buffer of the caller: 65600)
+            "dropped-while-open" >>      \* C12: the client saw the server close or reset a connection that no call had returned,
+                                         \*      although from its arrival until now some handle of its address was open all the
+                                         \*      time ("closed rather than left hanging" is for connections nobody can take any more)
 NK == Len(Kinds)
 KindIdx(s) == CHOOSE i \in 1..NK : Kinds[i] = s
 
@@ -147,6 +152,15 @@ TrCleanupStart ==
      Flag(IF lost # {} THEN {"item-lost"} ELSE {})
   /\ UNCHANGED <<closeStarted, closeDone, acc, delivered, nsched, ndrift, keyOf, itemKey, gap, closedAtSend>>
 
+\* client side, before the cleanup: the server has closed / reset the connection and the client has received nothing
+TrClientSaw ==
+  /\ Is("ClientSaw")
+  /\ Flag(IF /\ E.item >= 1 /\ E.item <= MaxItem /\ E.what \in {"closed", "reset"}
+             /\ itemKey[E.item] # 0 /\ delivered[E.item] = 0 /\ ~gap[E.item]
+             /\ OpenOn(itemKey[E.item], closeStarted) # {}
+          THEN {"dropped-while-open"} ELSE {})
+  /\ UNCHANGED <<closeStarted, closeDone, acc, delivered, nsched, ndrift, keyOf, itemKey, gap, closedAtSend>>
+
 TrAddrCheck == /\ Is("AddrCheck")
                /\ Flag(IF E.atReturn # E.sender \/ E.atEnd # E.sender THEN {"wrong-source-address"} ELSE {})
                /\ UNCHANGED <<closeStarted, closeDone, acc, delivered, nsched, ndrift, keyOf, itemKey, gap, closedAtSend>>
@@ -163,7 +177,7 @@ TrOther == /\ l <= Len(Trace) /\ E.ev \in {"ListenStart", "Replayed", "End", "Fr
            /\ UNCHANGED <<closeStarted, closeDone, acc, delivered, vio, nsched, ndrift, keyOf, itemKey, gap, closedAtSend>>
 
 Next == TrSched \/ TrListenEnd \/ TrCloseStart \/ TrCloseEnd \/ TrAcceptStart \/ TrAcceptEnd \/ TrStuck
-        \/ TrRebind \/ TrItemFate \/ TrLeak \/ TrOther \/ TrConnect \/ TrConnectStart \/ TrCleanupStart \/ TrAddrCheck \/ TrPanic \/ TrTruncated
+        \/ TrRebind \/ TrItemFate \/ TrLeak \/ TrOther \/ TrConnect \/ TrConnectStart \/ TrCleanupStart \/ TrAddrCheck \/ TrPanic \/ TrTruncated \/ TrClientSaw
 Spec == Init /\ [][Next]_tvars
 
 Report == (l = Len(Trace) + 1) => PrintT(<<"RESULT", l - 1, nsched, ndrift, vio>>)
